@@ -326,3 +326,79 @@ fn qp_zst_elements_vec() {
     drop(a);
     assert!(n_live() == 0);
 }
+
+
+// ---- zero-sized elements that own something: each item is moved into the Arc once, destroyed with it once
+static mut ZD_MADE: usize = 0;
+static mut ZD_DROPS: usize = 0;
+struct ZstD;
+impl ZstD {
+    fn make() -> ZstD {
+        unsafe { ZD_MADE += 1 };
+        ZstD
+    }
+}
+impl Drop for ZstD {
+    fn drop(&mut self) {
+        unsafe { ZD_DROPS += 1 };
+    }
+}
+struct ZIt {
+    i: usize,
+    n: usize,
+    exact: bool,
+}
+impl Iterator for ZIt {
+    type Item = ZstD;
+    fn next(&mut self) -> Option<ZstD> {
+        if self.i < self.n {
+            self.i += 1;
+            Some(ZstD::make())
+        } else {
+            None
+        }
+    }
+    fn size_hint(&self) -> (usize, Option<usize>) {
+        let rem = self.n - self.i;
+        if self.exact {
+            (rem, Some(rem))
+        } else {
+            (0, Some(rem + 1))
+        }
+    }
+}
+fn zst_drop_collect<const N: usize>(exact: bool, unique: bool) {
+    crate::ghost::arm();
+    let it = ZIt { i: 0, n: N, exact };
+    kani::cover!(true, "reached the constructor");
+    // the library may refuse zero-sized elements by panicking (p harness); if it delivers, it must be right
+    if unique {
+        let u: UniqueArc<[ZstD]> = it.collect();
+        assert!(u.len() == N, "zero-sized items: wrong length");
+        assert!(unsafe { ZD_MADE == N && ZD_DROPS == 0 }, "zero-sized items were destroyed (or not all taken) by the constructor");
+        drop(u);
+    } else {
+        let a: Arc<[ZstD]> = it.collect();
+        assert!(a.len() == N, "zero-sized items: wrong length");
+        assert!(unsafe { ZD_MADE == N && ZD_DROPS == 0 }, "zero-sized items were destroyed (or not all taken) by the constructor");
+        drop(a);
+    }
+    assert!(unsafe { ZD_DROPS == N }, "each zero-sized item is destroyed exactly once, with the allocation");
+    assert!(n_live() == 0);
+}
+macro_rules! zdc {
+    ($($name:ident $n:expr, $exact:expr, $unique:expr;)*) => {$(
+        #[kani::proof]
+        #[kani::unwind(6)]
+        #[kani::stub(std::alloc::alloc, alloc_stub)]
+        #[kani::stub(alloc::alloc::dealloc_nonnull, dealloc_stub)]
+        fn $name() { zst_drop_collect::<$n>($exact, $unique) }
+    )*};
+}
+zdc! {
+    qp_zst_drop_collect_arc_loose_n2 2, false, false;
+    qp_zst_drop_collect_arc_exact_n2 2, true, false;
+    r0p_zst_drop_collect_unique_loose_n2 2, false, true;
+    r1p_zst_drop_collect_unique_exact_n1 1, true, true;
+    r2p_zst_drop_collect_arc_loose_n0 0, false, false;
+}
